@@ -1,5 +1,6 @@
 import I18n.Lemmas.CFmtFinditer
 import I18n.Lemmas.CFmtReLive
+import I18n.Lemmas.CFmtGenerated
 /-!
 # C11 — the tie of the scanner to `_directive_re`, in the kernel
 
@@ -67,6 +68,29 @@ theorem match_decodes {s : List Char} {pos : Nat} {cs : List Char} {it : Item} {
     CFmt.decodeMatch s ⟨pos, ⟨rest, pos + it.render.length, CFmt.itemCaps pos it⟩⟩ = some it :=
   CFmtRe.decodeMatch_item hs h
 
+/-! ## the decision code of `Conversion.__init__`, regenerated from the source -/
+
+/-- **`CFmt.conversion` IS the regenerated code.**  `Generated.CFmtConv.checks` is the statement-by-statement translation
+    (tools/translate/cfmtconv2lean.py, every run) of `Conversion.__init__` from the statement after `self.type = tp` to the end
+    — the `Counter` loop over the flags, the redundancy warnings, `width`/`varwidth`/`varwidth_index`,
+    `precision`/`varprec`/`varprec_index`, `index`, the three `add_argument` calls with their `except` clauses — reading
+    `match.group(name)` from `Py.groupOf d` (the group texts of the match that decodes to `d`: `match_decodes`).  For every
+    well-formed directive (what a match of `_directive_re` decodes to), the model's `conversion` is: the type from the probed
+    table (`typeInfo`, tied by `ctables_pin`), the NonPortableConversion warning, then that code. -/
+theorem generated_conversion_eq_model (w : Bool) (st : CFmt.St) (d : Directive) (hd : d.Wf) :
+    CFmt.conversion w st d =
+      match CFmt.typeInfo d.body with
+      | .error e => .error e
+      | .ok (tp, _, np) =>
+        Generated.CFmtConv.checks w (if np then CFmt.warn w st .NonPortableConversion else st) (CFmt.Py.groupOf d)
+          (.str [d.body.conv]) tp st.nitems :=
+  CFmt.Py.conversion_eq_generated w st d hd
+
+/-- every directive the scanner reads is well-formed, so the hypothesis of `generated_conversion_eq_model` holds for every
+    conversion `FormatString.__init__` constructs -/
+theorem scanned_directive_wf {cs : List Char} {d : Directive} {rest : List Char} (h : CFmt.scanItem cs = some (.dir d, rest)) : d.Wf :=
+  CFmtRe.scanItem_dir_wf h
+
 /-! ## Non-vacuity -/
 
 def db0 : CharDB := ⟨fun _ => false, fun _ => false⟩
@@ -82,6 +106,12 @@ example : (matchAt db0 CFmtRe.directiveRe "abc%d".toList 7).map (fun st => (st.r
     some ("%d".toList, 10, [(1, 7, 10)]) := by decide +kernel
 example : (CFmt.walk "a%5$hhu%%".toList (CFmt.finditer db0 CFmtRe.directiveRe "a%5$hhu%%".toList) 0).2.1 = true := by
   rw [(segmentation_is_finditer db0 _).2.1]; rfl
+example : Generated.CFmtConv.checks true CFmt.St.init (CFmt.Py.groupOf ⟨none, ['0', '-'], .star none, .num ['3'], .std (some .l) 'd'⟩)
+    (.str ['d']) "long int" 0 =
+    .ok { next := some 3, map := [(1, ⟨.width, "int", 0⟩), (2, ⟨.conv, "long int", 0⟩)], nitems := 0,
+          warnings := [.RedundantFlag, .RedundantFlag] } := by rfl
+example : Generated.CFmtConv.checks true CFmt.St.init (CFmt.Py.groupOf ⟨some ['1'], [], .none, .none, .std none '%'⟩) (.str ['%']) "void" 0 =
+    .error .ForbiddenArgumentIndex := by rfl
 example : (CFmt.walk "a%y".toList (CFmt.finditer db0 CFmtRe.directiveRe "a%y".toList) 0) = ([.lit ['a']], false, 1) := by decide +kernel
 
 end I18n.Props.C11Tie
